@@ -289,6 +289,10 @@ mcase("m-handler-fallback", {"litesignedprekeystore.py": [('''        cursor.exe
             with self.dbConn:
                 cursor.execute("UPDATE signed_prekeys SET record = ? WHERE prekey_id = ?", (record, signedPreKeyId))''')]}, "none")
 
+mcase("m-write-skipping-cache", {P: [("        self.dbConn = dbConn\n", "        self.dbConn = dbConn\n        self._gone = set()\n"),
+                                     (RM, "        if preKeyId in self._gone:\n            return\n" + RM + "\n        self._gone.add(preKeyId)")]}, "none")
+mcase("m-write-only-flag", {P: [(RM, RM + "\n        self._lastRemoved = preKeyId")]}, "syntactic+measured (agree) | same")
+
 shutil.rmtree(TMP, ignore_errors=True)
 print("%d cases, %d failed" % (NCASES, len(FAILED)))
 sys.exit(1 if FAILED else 0)
